@@ -3,7 +3,10 @@ that share one user mapping keep their own pytree_node setting (children = the p
 other init fields are metadata) - all combinations of shared / separate / None / empty / MappingProxy metadata over 2-3
 fields; (b) optree.functools.partial is never merged with a nested partial: nesting depth 1-3 of optree partials and
 functools partials in every order; leaves are exactly the outer args/keywords, the wrapped callable is metadata, and the
-rebuilt partial calls the same function with the mapped arguments.  Exhaustive over the listed grid."""
+rebuilt partial calls the same function with the mapped arguments; (c) a dataclass node addresses its children by field name in
+every treespec derived from it: flatten, tree_structure, broadcast_to_common_suffix, compose, child, transform, one_level,
+pickle round trip, treespec_from_collection - for field layouts where a metadata field sits between the children.
+Exhaustive over the listed grid."""
 from ocv.bounded._extra import run_core
 
 CORE = r'''
@@ -15,7 +18,68 @@ import optree.functools as ofn
 NS = 'c19x'
 COUNTER = itertools.count()
 
+LAYOUTS = [('c', 'm', 'c'), ('m', 'c', 'c'), ('c', 'c', 'm'), ('c', 'm', 'c', 'm', 'c'), ('c',), ('m', 'c')]
+_classes = {}
+def layout_class(layout):
+    if layout not in _classes:
+        fields = [(f'f{i}', int if kind == 'm' else object, odc.field(pytree_node=(kind == 'c'))) for i, kind in enumerate(layout)]
+        import sys
+        cls = odc.make_dataclass(f'Lay{len(_classes)}', fields, namespace=NS)
+        mod = sys.modules.setdefault('c19x_mod', types.ModuleType('c19x_mod'))        # pickle stores classes by reference
+        cls.__module__ = 'c19x_mod'
+        setattr(mod, cls.__name__, cls)
+        _classes[layout] = cls
+    return _classes[layout]
+
+def derived(ts, inst, kw):
+    import pickle
+    L = optree.treespec_leaf(**kw)
+    yield 'tree_structure', ts
+    yield 'tree_flatten_with_accessor', optree.tree_flatten_with_accessor(inst, **kw)[2]
+    yield 'broadcast_to_common_suffix(self)', ts.broadcast_to_common_suffix(ts)
+    yield 'broadcast_to_common_suffix(deeper)', ts.broadcast_to_common_suffix(ts.compose(optree.tree_structure((0, 0), **kw)))
+    yield 'leaf.broadcast_to_common_suffix(ts)', L.broadcast_to_common_suffix(ts)
+    yield 'compose(leaf)', ts.compose(L)
+    yield 'list-of.child(0)', optree.tree_structure([inst, 0], **kw).child(0)
+    yield 'transform(identity)', ts.transform(lambda s: s, lambda s: s)
+    yield 'pickle', pickle.loads(pickle.dumps(ts))
+    yield 'treespec_from_collection', optree.treespec_from_collection(
+        type(inst)(**{f.name: (L if f.metadata.get('pytree_node', True) else getattr(inst, f.name)) for f in dataclasses.fields(inst)}), **kw)
+
+def by_field_name(layout, nil):
+    bad = []
+    cls = layout_class(layout)
+    values = {f'f{i}': (i if kind == 'm' else {'k': object()}) for i, kind in enumerate(layout)}
+    inst = cls(**values)
+    kw = dict(namespace=NS, none_is_leaf=nil)
+    child_names = [f'f{i}' for i, kind in enumerate(layout) if kind == 'c']
+    ts = optree.tree_structure(inst, **kw)
+    for how, s in derived(ts, inst, kw):
+        what = f'{cls.__name__}{layout!r}: treespec {s!r} obtained via {how}'
+        top = s if s.num_children == len(child_names) and s.type is cls else None
+        if top is None:
+            bad.append(('C19.children_addressed_by_field_name', f'{what}: root is not the dataclass node with {len(child_names)} children')); continue
+        if list(top.entries()) != child_names:
+            bad.append(('C19.children_addressed_by_field_name', f'{what}: entries() = {top.entries()!r}, the pytree_node fields are {child_names!r}'))
+        if [top.entry(i) for i in range(len(child_names))] != child_names:
+            bad.append(('C19.children_addressed_by_field_name', f'{what}: entry(i) = {[top.entry(i) for i in range(len(child_names))]!r}, expected {child_names!r}'))
+        firsts = [p[0] for p in top.paths() if p]
+        if any(f not in child_names for f in firsts):
+            bad.append(('C19.children_addressed_by_field_name', f'{what}: paths() start with {firsts!r}, the pytree_node fields are {child_names!r}'))
+        if top.num_leaves == len(child_names) and 'deeper' not in how and 'compose' not in how and 'from_collection' not in how:
+            for a, nm in zip(top.accessors(), child_names):
+                try:
+                    got = a(inst)
+                except Exception as e:
+                    bad.append(('C19.children_addressed_by_field_name', f'{what}: accessor {a!r} raised {type(e).__name__}: {e}')); continue
+                if got is not values[nm]['k']:
+                    bad.append(('C19.children_addressed_by_field_name', f'{what}: accessor {a!r} does not fetch the value under field {nm}'))
+    return bad
+
 def cases(tier):
+    for layout in LAYOUTS:
+        for nil in (False, True):
+            yield ('byname', layout, nil)
     for n in (2, 3):
         for flags in itertools.product((True, False, None), repeat=n):
             for share in ('shared-dict', 'separate-dicts', 'none', 'empty-shared', 'proxy-shared'):
@@ -25,6 +89,8 @@ def cases(tier):
 
 def check(spec):
     bad = []
+    if spec[0] == 'byname':
+        return by_field_name(spec[1], spec[2])
     if spec[0] == 'field':
         _, flags, share = spec
         user = {'unit': 'm'}
